@@ -178,3 +178,180 @@ func (r *Run) ordNote(c *Term, val bool) {
 		}
 	}
 }
+
+// ---- a complete decision procedure for pure order constraints ----
+//
+// While every literal of the path condition is a comparison (signed or unsigned, not both),
+// equality or disequality between plain symbols of one bit-vector sort (no constants, no
+// arithmetic), satisfiability of "path condition and one more such literal" is decided
+// here, without the solver: the constraints are satisfiable iff the <=-graph has no cycle
+// through a strict edge and no disequality joins two symbols of one strongly connected
+// component (otherwise number the components in topological order: all <=, <, = and != hold;
+// 2^w values suffice because there are far fewer symbols). As soon as a literal of another
+// shape enters the path condition the procedure declares itself not applicable for the rest
+// of the path and the solver decides as before. SYMGO_ORDCHECK=1 re-decides every answer
+// with the solver and aborts on disagreement.
+
+type ordLit struct {
+	a, b *Term
+	kind int // 0: a <= b, 1: a < b, 2: a == b, 3: a != b
+}
+
+type pureOrder struct {
+	off    bool
+	sign   int // 0 unknown, 1 signed, 2 unsigned
+	lits   []ordLit
+	idx    map[int]int
+	nnodes int
+}
+
+func plainSym(t *Term) bool { return t.op == OpSym && t.sort.K == SBV && t.sort.W >= 16 }
+
+// litOf translates a literal (atom or negated atom) into pure-order form.
+func (p *pureOrder) litOf(c *Term, val bool) (ordLit, bool) {
+	for c.op == OpBNot {
+		c, val = c.args[0], !val
+	}
+	switch c.op {
+	case OpSlt, OpSle, OpUlt, OpUle:
+		sg := 1
+		if c.op == OpUlt || c.op == OpUle {
+			sg = 2
+		}
+		if p.sign != 0 && p.sign != sg {
+			return ordLit{}, false
+		}
+		a, b := c.args[0], c.args[1]
+		if !plainSym(a) || !plainSym(b) {
+			return ordLit{}, false
+		}
+		p.sign = sg
+		strict := c.op == OpSlt || c.op == OpUlt
+		if !val { // !(a < b) is b <= a ; !(a <= b) is b < a
+			a, b, strict = b, a, !strict
+		}
+		k := 0
+		if strict {
+			k = 1
+		}
+		return ordLit{a, b, k}, true
+	case OpEq:
+		a, b := c.args[0], c.args[1]
+		if !plainSym(a) || !plainSym(b) {
+			return ordLit{}, false
+		}
+		if val {
+			return ordLit{a, b, 2}, true
+		}
+		return ordLit{a, b, 3}, true
+	}
+	return ordLit{}, false
+}
+
+// add records a literal of the path condition; a conjunction is split, anything that is not a
+// pure order literal switches the procedure off.
+func (p *pureOrder) add(c *Term, val bool) {
+	if p.off {
+		return
+	}
+	for c.op == OpBNot {
+		c, val = c.args[0], !val
+	}
+	if c.IsConst() {
+		return
+	}
+	if val && c.op == OpBAnd {
+		p.add(c.args[0], true)
+		p.add(c.args[1], true)
+		return
+	}
+	if !val && c.op == OpBOr {
+		p.add(c.args[0], false)
+		p.add(c.args[1], false)
+		return
+	}
+	l, ok := p.litOf(c, val)
+	if !ok {
+		p.off = true
+		return
+	}
+	p.lits = append(p.lits, l)
+}
+
+// sat decides "path condition and (c == val)"; ok is false when the procedure does not apply.
+func (p *pureOrder) sat(c *Term, val bool) (sat bool, ok bool) {
+	if p.off {
+		return false, false
+	}
+	sign := p.sign
+	l, lok := p.litOf(c, val)
+	if !lok {
+		p.sign = sign
+		return false, false
+	}
+	lits := append(p.lits[:len(p.lits):len(p.lits)], l)
+	p.sign = sign // a query does not commit the signedness
+	idx := map[int]int{}
+	node := func(t *Term) int {
+		if i, ok := idx[t.id]; ok {
+			return i
+		}
+		idx[t.id] = len(idx)
+		return len(idx) - 1
+	}
+	for _, x := range lits {
+		node(x.a)
+		node(x.b)
+	}
+	n := len(idx)
+	if n > 120 {
+		return false, false
+	}
+	le := make([]bool, n*n)
+	lt := make([]bool, n*n)
+	for i := 0; i < n; i++ {
+		le[i*n+i] = true
+	}
+	for _, x := range lits {
+		i, j := idx[x.a.id], idx[x.b.id]
+		switch x.kind {
+		case 0:
+			le[i*n+j] = true
+		case 1:
+			le[i*n+j] = true
+			lt[i*n+j] = true
+		case 2:
+			le[i*n+j] = true
+			le[j*n+i] = true
+		}
+	}
+	for k := 0; k < n; k++ {
+		for i := 0; i < n; i++ {
+			if !le[i*n+k] {
+				continue
+			}
+			for j := 0; j < n; j++ {
+				if le[k*n+j] {
+					le[i*n+j] = true
+					if lt[i*n+k] || lt[k*n+j] {
+						lt[i*n+j] = true
+					}
+				}
+			}
+		}
+	}
+	for i := 0; i < n; i++ {
+		if lt[i*n+i] {
+			return false, true
+		}
+	}
+	for _, x := range lits {
+		if x.kind == 3 {
+			i, j := idx[x.a.id], idx[x.b.id]
+			if i == j || (le[i*n+j] && le[j*n+i]) {
+				return false, true
+			}
+		}
+	}
+	return true, true
+}
